@@ -262,7 +262,7 @@ def forward_taint(f, call=None, seeds=()):
             if d is None or d.dst is None or d.dst[0] in tainted:
                 continue
             dn = d.declared or ""
-            if (dn in TRANSPORT or dn.endswith("ResultExt::context")) and d.args \
+            if (dn in TRANSPORT or dn.endswith("ResultExt::context") or dn.endswith("Result::<T, E>::map_err")) and d.args \
                     and mir.is_place_operand(d.args[0]) and mir.op_place(d.args[0])[0] in tainted:
                 tainted.add(d.dst[0])
                 changed = True
